@@ -127,7 +127,7 @@ def explain(mm):
     if "live connection that is not the registered one" in oracle:
         return "DevRegisterCheckThenAct"
     if "stale teardown" in oracle:
-        if a.get("act") == "KaFail" and ("registration" in oracle or "closed the live" in oracle):
+        if "closed the live" in oracle or (a.get("act") == "KaFail" and "registration" in oracle):
             return "DevKeepaliveDisconnectsByIdentity"
         return "DevTeardownDeregistersByIdentity" if "registration" in oracle else "DevCleanupByIdentityOnStaleCallback"
     if a.get("act") in ("KaFail", "ReadTeardown"):
